@@ -42,6 +42,7 @@ func runC10(r *Run) {
 	c10R4(r)
 
 	r.NilArgsRule("C10.R5", "asn1")
+	c10DebugObls(r)
 }
 
 // ---- R1: lax propagation --------------------------------------------------------
